@@ -62,6 +62,16 @@ def app(environ, start_response):
             os.rename(fn + ".%d" % os.getpid(), fn)
         start_response("200 OK", hdr + [("Content-Length", str(n))])
         return environ["wsgi.file_wrapper"](open(fn, "rb"))
+    if path.startswith("/pipefile/"):
+        # a file object with a descriptor that cannot seek (a pipe): still a valid argument for wsgi.file_wrapper
+        n = int(path[10:])
+        r, w = os.pipe()
+        # closed through a file object: gevent (>= 24) replaces os.close by a version that may defer the close to the next
+        # loop iteration, and the blocking read below would then wait for its own write end
+        with os.fdopen(w, "wb", 0) as wf:
+            wf.write(b"P" * n)
+        start_response("200 OK", hdr + [("Content-Length", str(n))])
+        return environ["wsgi.file_wrapper"](os.fdopen(r, "rb"))
     if path.startswith("/big/"):
         n = int(path[5:])
         start_response("200 OK", hdr + [("Content-Length", str(n))])
